@@ -544,4 +544,165 @@ Proof.
   unfold write_tail. rewrite H5. reflexivity.
 Qed.
 
+(* ---- C16: truthfulness of STRT / STOP / STEP ------------------------------------------------------ *)
+(* the unit everything is aligned to: curve 0's when it has one, else STRT's *)
+Definition aligned_unit (l : las) : list N :=
+  match c0unit_of l with
+  | [] => match sect_find (s_transforms (l_well l)) k_strt (s_items (l_well l)) with
+          | Some it => i_unit it | None => [] end
+  | _ => c0unit_of l
+  end.
+
+Lemma unit_of_aligned l nS :
+  fidx (s_transforms (l_well l)) k_strt (s_items (l_well l)) = Some nS -> unit_of l nS = aligned_unit l.
+Proof. intro H. unfold unit_of, aligned_unit. rewrite sect_find_nth, H. reflexivity. Qed.
+
+Lemma need_of_ext l l' ii :
+  l_well l = l_well l' -> l_data l = l_data l' ->
+  need_of numeq (mkmlas l ii) = need_of numeq (mkmlas l' ii).
+Proof. intros H1 H2. unfold need_of. cbn [m_las m_index_initial]. rewrite H1, H2. reflexivity. Qed.
+
+Lemma aligned_unit_ext l l' :
+  l_well l = l_well l' -> l_curves l = l_curves l' -> aligned_unit l = aligned_unit l'.
+Proof. intros H1 H2. unfold aligned_unit, c0unit_of. rewrite H1, H2. reflexivity. Qed.
+
+(* when lasio decides to refresh *)
+Lemma need_created m : m_index_initial m = None -> need_of numeq m = Some true.
+Proof. unfold need_of. intros ->. reflexivity. Qed.
+
+Lemma need_changed m iv lastc rr svv :
+  m_index_initial m = Some iv -> rev iv = lastc :: rr ->
+  item_value_by (s_transforms (l_well (m_las m))) k_stop (s_items (l_well (m_las m))) = Some svv ->
+  cells_equal numeq iv (index_of (m_las m)) = false ->
+  need_of numeq m = Some true.
+Proof.
+  unfold need_of, index_of. intros -> -> H1 H2. fold k_stop. rewrite H1, H2. reflexivity.
+Qed.
+
+Lemma need_stop_differs_int m iv t rr z :
+  m_index_initial m = Some iv -> rev iv = CNum t :: rr ->
+  item_value_by (s_transforms (l_well (m_las m))) k_stop (s_items (l_well (m_las m))) = Some (VInt z) ->
+  numeq t (z_to_str z) = false ->
+  need_of numeq m = Some true.
+Proof.
+  unfold need_of. intros -> -> H1 H2. fold k_stop. rewrite H1, H2. rewrite orb_true_r. reflexivity.
+Qed.
+
+Lemma need_stop_differs_float m iv t rr x :
+  m_index_initial m = Some iv -> rev iv = CNum t :: rr ->
+  item_value_by (s_transforms (l_well (m_las m))) k_stop (s_items (l_well (m_las m))) = Some (VFloat x) ->
+  numeq t x = false ->
+  need_of numeq m = Some true.
+Proof.
+  unfold need_of. intros -> -> H1 H2. fold k_stop. rewrite H1, H2. rewrite orb_true_r. reflexivity.
+Qed.
+
+Lemma need_stop_text m iv lastc rr s :
+  m_index_initial m = Some iv -> rev iv = lastc :: rr ->
+  item_value_by (s_transforms (l_well (m_las m))) k_stop (s_items (l_well (m_las m))) = Some (VStr s) ->
+  need_of numeq m = Some true.
+Proof.
+  unfold need_of. intros -> -> H1. fold k_stop. rewrite H1.
+  destruct lastc; rewrite orb_true_r; reflexivity.
+Qed.
+
+Theorem write_units_aligned o m text m' :
+  write o m = WOk text m' ->
+  let trw := s_transforms (l_well (m_las m)) in
+  let u := aligned_unit (m_las m) in
+  exists s p e,
+    sect_find trw k_strt (s_items (l_well (m_las m'))) = Some s /\ i_unit s = u /\
+    sect_find trw k_stop (s_items (l_well (m_las m'))) = Some p /\ i_unit p = u /\
+    sect_find trw k_step (s_items (l_well (m_las m'))) = Some e /\ i_unit e = u /\
+    (forall c0 rest, s_items (l_curves (m_las m')) = c0 :: rest -> i_unit c0 = u).
+Proof.
+  intro H. destruct (write_ok_inv _ _ _ _ H) as (wrap & l1 & v & l2 & H1 & _ & H3 & -> & _).
+  destruct (wrap_step_fields _ _ _ _ H1) as (F1 & F2 & _).
+  destruct (refresh_inv _ _ _ _ _ H3) as (need & nS & nP & nE & _ & HS & HP & HE & ->).
+  cbn [m_las m_index_initial] in *. cbv zeta.
+  rewrite <- (aligned_unit_ext l1 (m_las m) F1 F2), <- F1, <- (unit_of_aligned l1 nS HS).
+  destruct (after_units fmtv fmt_diff (standardize fzero) l1 need nS nP nE HS HP HE)
+    as (a & b & c & A1 & A2 & B1 & B2 & C1 & C2).
+  exists a, b, c. repeat split; try assumption.
+  intros c0 rest.
+  change (s_items (l_curves (norm (refresh_result fmtv fmt_diff l1 need nS nP nE))))
+    with (curves_aligned l1 (unit_of l1 nS)).
+  unfold curves_aligned. destruct (s_items (l_curves l1)); [discriminate|].
+  intro E. injection E as <- _. reflexivity.
+Qed.
+
+Lemma step_of_two a b rest z rr :
+  rev (CNum a :: CNum b :: rest) = CNum z :: rr ->
+  step_of fmtv fmt_diff (CNum a :: CNum b :: rest) =
+  if str_eqb (fmtv f5 a) (fmtv f5 z) then VNone else VStr (fmt_diff b a).
+Proof. intro H. unfold step_of, strt_of, stop_of. rewrite H. reflexivity. Qed.
+
+Lemma step_of_single c : step_of fmtv fmt_diff [c] = VNone.
+Proof. destruct c; reflexivity. Qed.
+
+Theorem write_truth o m text m' a rest z rr :
+  write o m = WOk text m' ->
+  need_of numeq m = Some true ->
+  index_of (m_las m) = CNum a :: rest -> rev (index_of (m_las m)) = CNum z :: rr ->
+  let trw := s_transforms (l_well (m_las m)) in
+  let u := aligned_unit (m_las m) in
+  exists s p e,
+    sect_find trw k_strt (s_items (l_well (m_las m'))) = Some s /\
+    sect_find trw k_stop (s_items (l_well (m_las m'))) = Some p /\
+    sect_find trw k_step (s_items (l_well (m_las m'))) = Some e /\
+    i_value s = standardize fzero (VStr (fmtv f5 a)) u /\
+    i_value p = standardize fzero (VStr (fmtv f5 z)) u /\
+    i_value e = standardize fzero (step_of fmtv fmt_diff (index_of (m_las m))) u /\
+    i_unit s = u /\ i_unit p = u /\ i_unit e = u.
+Proof.
+  intros H Hneed Hfirst Hlast.
+  destruct (write_ok_inv _ _ _ _ H) as (wrap & l1 & v & l2 & H1 & _ & H3 & -> & _).
+  destruct (wrap_step_fields _ _ _ _ H1) as (F1 & F2 & _ & _ & _ & F6 & _).
+  destruct (refresh_inv _ _ _ _ _ H3) as (need & nS & nP & nE & Hn & HS & HP & HE & ->).
+  cbn [m_las m_index_initial] in *. cbv zeta.
+  assert (need = true).
+  { destruct m as [l0 ii]. cbn [m_las m_index_initial] in *.
+    rewrite (need_of_ext l1 l0 ii F1 F6), Hneed in Hn. injection Hn as <-. reflexivity. }
+  subst need.
+  assert (EI : index_of l1 = index_of (m_las m)) by (unfold index_of; rewrite F6; reflexivity).
+  rewrite <- (aligned_unit_ext l1 (m_las m) F1 F2), <- F1, <- (unit_of_aligned l1 nS HS).
+  destruct (after_find_strt fmtv fmt_diff (standardize fzero) l1 true nS nP nE HS HP HE eq_refl) as (itS & _ & AS).
+  destruct (after_find_stop fmtv fmt_diff (standardize fzero) l1 true nS nP nE HS HP HE eq_refl) as (itP & _ & AP).
+  destruct (after_find_step fmtv fmt_diff (standardize fzero) l1 true nS nP nE HS HP HE eq_refl) as (itE & _ & AE).
+  eexists _, _, _. split; [exact AS|]. split; [exact AP|]. split; [exact AE|].
+  rewrite EI. cbn [hf su sv set_value set_unit i_value i_unit].
+  unfold strt_of, stop_of. rewrite Hlast, Hfirst. repeat split.
+Qed.
+
+(* the same with the values spelled out, for formats that never print an empty text *)
+Theorem write_truth_texts o m text m' a rest z rr :
+  (forall t, fmtv f5 t <> []) ->
+  write o m = WOk text m' ->
+  need_of numeq m = Some true ->
+  index_of (m_las m) = CNum a :: rest -> rev (index_of (m_las m)) = CNum z :: rr ->
+  let trw := s_transforms (l_well (m_las m)) in
+  exists s p e,
+    sect_find trw k_strt (s_items (l_well (m_las m'))) = Some s /\ i_value s = VStr (fmtv f5 a) /\
+    sect_find trw k_stop (s_items (l_well (m_las m'))) = Some p /\ i_value p = VStr (fmtv f5 z) /\
+    sect_find trw k_step (s_items (l_well (m_las m'))) = Some e /\
+    (forall b rest', rest = CNum b :: rest' -> str_eqb (fmtv f5 a) (fmtv f5 z) = false -> fmt_diff b a <> [] ->
+       i_value e = VStr (fmt_diff b a)) /\
+    (rest = [] \/ (exists b rest', rest = CNum b :: rest' /\ str_eqb (fmtv f5 a) (fmtv f5 z) = true) ->
+       i_value e = standardize fzero VNone (aligned_unit (m_las m))).
+Proof.
+  intros Hne H Hneed Hfirst Hlast.
+  destruct (write_truth o m text m' a rest z rr H Hneed Hfirst Hlast) as (s & p & e & A & B & C & VS & VP & VE & _).
+  exists s, p, e. split; [exact A|]. split.
+  { rewrite VS. pose proof (Hne a) as X. destruct (fmtv f5 a); [congruence|apply standardize_text]. }
+  split; [exact B|]. split.
+  { rewrite VP. pose proof (Hne z) as X. destruct (fmtv f5 z); [congruence|apply standardize_text]. }
+  split; [exact C|]. split.
+  - intros b rest' -> Hd Hnd. rewrite VE, Hfirst.
+    rewrite Hfirst in Hlast. rewrite (step_of_two a b rest' z rr Hlast), Hd.
+    destruct (fmt_diff b a); [congruence|apply standardize_text].
+  - intros [->|(b & rest' & -> & Heq)]; rewrite VE, Hfirst.
+    + rewrite step_of_single. reflexivity.
+    + rewrite Hfirst in Hlast. rewrite (step_of_two a b rest' z rr Hlast), Heq. reflexivity.
+Qed.
+
 End WriteLevel.
